@@ -32,7 +32,7 @@ from . import ptab  # noqa: E402,F401
 
 def write_evidence(pid, tier, seed, spec, hs, obligations, info, wall, violations, exit_code):
     os.makedirs(common.EVIDENCE, exist_ok=True)
-    n = len([o for o in obligations if o.get("engine") in ("kani", "smt")])
+    n = len([o for o in obligations if o.get("engine") in ("kani", "smt", "guard")])
     discharged = len([o for o in obligations if o.get("verdict") in ("holds",)])
     known = len([o for o in obligations if o.get("verdict") == "known"])
     nontrivial = 0
